@@ -246,6 +246,8 @@ type friendly struct {
 	// Mapped: the nodes are known by the 16-byte (v4-mapped) form of their IPv4 address and name each
 	// other in nodes6 in that form, as a dual-stack peer does
 	Mapped bool
+	// WriteError: announce_peer and put are answered with a KRPC error (203) instead of a response
+	WriteError bool
 }
 
 func friendlyAddr(i int) *net.UDPAddr {
@@ -293,6 +295,11 @@ func addFriendlyNet(n1 *SimNet, n int, silent func(i int, q SimQuery) bool) *fri
 					r = r.Set("v", v)
 				}
 				return []SimReply{{Data: mkResponse(t, r)}}
+			case "announce_peer", "put":
+				if f.WriteError {
+					return []SimReply{{Data: mkError(t, 203, "bad token")}}
+				}
+				return []SimReply{{Data: mkResponse(t, stdReturn(f.IDs[i], nil, nil))}}
 			default:
 				return []SimReply{{Data: mkResponse(t, stdReturn(f.IDs[i], nil, nil))}}
 			}
